@@ -1136,3 +1136,12 @@ func lockReleased(fn *ssa.Function, lk ssa.CallInstruction) (bool, string) {
 	}
 	return true, ""
 }
+
+// reachUntil: the blocks reachable from s without entering stop; empty when s
+// is stop itself (the edge leads straight back).
+func reachUntil(s, stop *ssa.BasicBlock) map[*ssa.BasicBlock]bool {
+	if s == stop {
+		return map[*ssa.BasicBlock]bool{}
+	}
+	return reachableFrom(s, func(from, to *ssa.BasicBlock) bool { return to == stop })
+}
